@@ -17,6 +17,28 @@ def _satisfiable(clauses):
     return bool(s.solve()[0])
 
 
+def ideal_uniform_samples(w, clauses, nvars, sampling_set, num):
+    """Stand-in for UniGen's sampling: the ideal it approximates.  Projected models are enumerated (bounded) and `num`
+    (sometimes one or two more: pyunigen documents that it may return more than asked) are drawn uniformly with
+    replacement from the run's peer stream; beyond the bound each sample is an arbitrary ('walk') model.
+    The genuine pyunigen is not called in-process: it can spin forever inside C code and it terminates the whole
+    interpreter on an unsatisfiable formula."""
+    if not _satisfiable(clauses):
+        return None
+    rng = w.stream("unigen-%d" % w.counters.get("peer.solve", 0))
+    want = num + (rng.choice([0, 0, 0, 1, 2]) if num > 0 else 0)
+    try:
+        vars_, models = enumerate_models(clauses, nvars, 600, tuple(sampling_set))
+    except HarnessCap:
+        out = []
+        for _ in range(want):
+            m = w.peer.solve(clauses, nvars)
+            w.counters["peer.solve"] -= 1
+            out.append([v if m[v] else -v for v in sampling_set])
+        return out
+    return [[v if b else -v for v, b in zip(vars_, models[rng.randrange(len(models))])] for _ in range(want)]
+
+
 class FakePycmsgen:
     def __init__(self, world):
         outer_world = world
@@ -110,19 +132,15 @@ class FakePyunigen:
                     w.log.append(("peer.sample", "pyunigen", num, _sha1(repr(out))))
                     w.unigen_samples.extend(out)
                     return (len(models), 0, out)
-                if not _satisfiable(self.clauses):
+                samples = ideal_uniform_samples(w, self.clauses, n, list(sampling_set), num)
+                if samples is None:
                     # genuine pyunigen 2.5.8 prints "Formula was UNSAT" and terminates the whole process here;
                     # the fake answers what the library's wrapper is written to expect from a well-behaved peer
                     w.log.append(("peer.sample", "pyunigen", "UNSAT"))
                     return (0, 0, [])
-                s = _real_pyunigen.Sampler(seed=w.stream("unigen-seed").randrange(1 << 30))
-                for c in self.clauses:
-                    s.add_clause(c)
-                cells, hashes, samples = s.sample(num=num, sampling_set=list(sampling_set))
-                # pyunigen documents that it may return more or fewer samples than asked: pass that on untouched
                 w.log.append(("peer.sample", "pyunigen", num, len(samples), _sha1(repr(samples))))
                 w.unigen_samples.extend(samples)
-                return (cells, hashes, samples)
+                return (len(samples), 0, samples)
 
         self.Sampler = Sampler
 
@@ -163,15 +181,7 @@ def fake_sampler_cli(world):
             w.fs.write(opts["samplefile"], "\n".join(lines) + "\n")
             w.log.append(("peer.sample", "cli-cmsgen", num, _sha1("\n".join(lines))))
             return CompletedProcessLike(command, 10, b"c CMSGen (sim)\n")
-        if not _satisfiable(clauses):
-            return CompletedProcessLike(command, 0, b"c The input formula is unsatisfiable.\n")
-        s = _real_pyunigen.Sampler(seed=seed)
-        for c in clauses:
-            s.add_clause(c)
-        try:
-            cells, hashes, samples = s.sample(num=num, sampling_set=ind)
-        except Exception:
-            samples = []
+        samples = ideal_uniform_samples(w, clauses, nvars, ind, num)
         if not samples:
             return CompletedProcessLike(command, 0, b"c The input formula is unsatisfiable.\n")
         out = "c UniGen (sim)\n" + "".join("v " + " ".join(str(l) for l in smp) + " 0:1\n" for smp in samples)
